@@ -23,6 +23,8 @@ Hypotheses that are used and why they are satisfiable:
   attrpath-derived bindings (`good_of_parse`) and by `from_dict` / new nested sets (empty order).
 -/
 namespace Nima.C14
+-- name tokens are compared by spelling in this file (see `NameCmp` in Model/Edit.lean)
+attribute [local instance] NameCmp.spelled
 
 open Node
 
